@@ -234,14 +234,37 @@ TEXT_ATOMS = ['"Foo"', '!"Foo"', '"Bar"', '!"Bar"', "c'foo'", "!c'foo'", "c'bar'
               '"plain"', "!c'done'", "'x9'", '!"a_b"', "c'a-b'", '!"(p)"']
 
 
-# a parenthesised group with ONE alternative next to atoms of the same sort: the group is a conjunct (intersection)
-GROUPED = ["o (x)", "(o) (x)", "P0-2 (P2-3)", "- (o +foo)", "o P1 (P1-3 o)", "(- | o) (o)", "o (o #home)", "P3 (P3) o", "x (x @work) | - (o)",
-           "(P0-4) (P3-9) (o | x)", "#home (#work)", "+foo | o (x (@home))"]
+# a parenthesised group with ONE alternative next to atoms of the same sort: the group is a conjunct (intersection).
+# Each with the structure its TEXT denotes (what the property is about), written by hand.
+def _af(**kw):
+    a = querygen.empty_af()
+    for k, v in kw.items():
+        a[k] = v
+    return a
+
+
+GROUPED = [
+    ("o (x)", [_af(kinds={"o"}, ors=[[_af(kinds={"x"})]])]),
+    ("(o) (x)", [_af(ors=[[_af(kinds={"o"})], [_af(kinds={"x"})]])]),
+    ("P0-2 (P2-3)", [_af(prios={"P0", "P1", "P2"}, ors=[[_af(prios={"P2", "P3"})]])]),
+    ("- (o +foo)", [_af(kinds={"-"}, ors=[[_af(kinds={"o"}, projects={"foo"})]])]),
+    ("o P1 (P1-3 o)", [_af(kinds={"o"}, prios={"P1"}, ors=[[_af(kinds={"o"}, prios={"P1", "P2", "P3"})]])]),
+    ("(- | o) (o)", [_af(ors=[[_af(kinds={"-"}), _af(kinds={"o"})], [_af(kinds={"o"})]])]),
+    ("o (o #home)", [_af(kinds={"o"}, ors=[[_af(kinds={"o"}, areas={"home"})]])]),
+    ("x (x @work) | - (o)", [_af(kinds={"x"}, ors=[[_af(kinds={"x"}, contexts={"work"})]]), _af(kinds={"-"}, ors=[[_af(kinds={"o"})]])]),
+    ("(P0-4) (P3-9) (o | x)", [_af(ors=[[_af(prios={"P0", "P1", "P2", "P3", "P4"})], [_af(prios={"P3", "P4", "P5", "P6", "P7", "P8", "P9"})],
+                                        [_af(kinds={"o"}), _af(kinds={"x"})]])]),
+    ("#home (#work)", [_af(areas={"home"}, ors=[[_af(areas={"work"})]])]),
+    ("+foo | o (x (@home))", [_af(projects={"foo"}), _af(kinds={"o"}, ors=[[_af(kinds={"x"}, ors=[[_af(contexts={"home"})]])]])]),
+]
+TEXT_AST = {}      # query text -> the structure the text denotes (for queries whose structure the generator knows)
 
 
 def gen_query(rng, today):
     if rng.random() < 0.08:
-        return "W " + rng.choice(GROUPED)
+        t, ast = rng.choice(GROUPED)
+        TEXT_AST["W " + t] = [querygen.canon_af(a) for a in ast]
+        return "W " + t
     if rng.random() < 0.15:
         atoms = rng.sample(TEXT_ATOMS, rng.randint(2, 3))
         if rng.random() < 0.3:
@@ -259,7 +282,7 @@ def gen_query(rng, today):
         if rng.random() < 0.3:
             t += " | " + rng.choice(EXTRA_ATOMS)
         return "W " + t
-    t, _ = querygen.gen_or(rng, today, 1)
+    t, _ = querygen.gen_or(rng, today, 1)     # (the generator's own structure is not an exact reading of every atom: not used as spec)
     return "W " + t
 
 
@@ -284,6 +307,9 @@ def run(oc, tier, seed):
                 ix = read_index(d)
                 queries = [c["q"] for c in (json.load(open(f)) for f in sorted(glob.glob(os.path.join(lib.VERIF, "corpus", "C03", "*.json"))))]
                 queries += ["W [[target]]", "W [[target]] plain", "W ([[target]] | [[sub/bar]])", "W [[Zed]]"]
+                for t, ast in GROUPED:         # in every run, each judged against the structure its text denotes
+                    TEXT_AST["W " + t] = [querygen.canon_af(a) for a in ast]
+                    queries.append("W " + t)
                 queries += [gen_query(rng, today) for _ in range(n_q)]
                 for q in queries:
                     oc.evaluations += 1
@@ -301,6 +327,12 @@ def run(oc, tier, seed):
                         except Exception as e:  # noqa: BLE001
                             impl = ["exn", type(e).__name__]
                     w = cq["where"]
+                    # the property is about the filter EXPRESSION: where the generator knows the structure the text denotes,
+                    # the spec is evaluated on that structure, not on what the query compiler made of the text
+                    w_text = TEXT_AST.get(q)
+                    if w_text is not None and w is not None and w_text != w:
+                        oc.count("compiled_filter_differs_from_text_structure")
+                    w_spec = w_text if w_text is not None else w
                     m = eng.call("eval_where", list(TODAY), ix, [[af_to_sexp(a) for a in w]] if w is not None else None)
                     case = {"q": q, "dir": "generated(seed=%d,dir=%d)" % (seed, di)}
                     if m[0] == "oom":
@@ -310,16 +342,16 @@ def run(oc, tier, seed):
                         oc.nontriv(q + str(di))
                     # spec
                     trig = set()
-                    for a in (w or []):
+                    for a in (w_spec or []):
                         trig |= triggers(a)
                     bad, unexplained = None, False
                     if impl[0] != "ok":
                         bad = "raised %s" % impl[1]
                         unexplained = m[0] not in ("oom",) and m[0] == "ok"     # the SQL model answers, the code raises
-                    elif w:
+                    elif w_spec:
                         model_set = set(m[1]) if m[0] == "ok" else None
                         for n in ix:
-                            s = sat_or(ix, n, w, today)
+                            s = sat_or(ix, n, w_spec, today)
                             if s is None:
                                 continue
                             if s != (n[1] in impl[1]):
@@ -332,6 +364,9 @@ def run(oc, tier, seed):
                                     unexplained = new
                                 if new:
                                     break
+                    if bad and w_text is not None and w is not None and w_text != w:
+                        unexplained = True      # the compiled filter is not the structure of the text: no SQL-level finding explains that
+                        bad += " (the filter was compiled to a different structure than its text denotes)"
                     if bad:
                         t = sorted(trig)[0] if (trig and not unexplained) else None
                         oc.spec_fail.append((dict(case, index=ix), {"what": bad, "returned": impl[1]}, "exactly the satisfying notes", t))
